@@ -459,8 +459,36 @@ pub fn native_json(n: u8) -> Value {
         9 => json!({"k": [1, 2]}),
         // a value that reads mutable state when it is serialised: it was LIVE_AT_SET when handed to set_claim
         12 => json!(LIVE_AT_SET),
+        // a value whose Serialize implementation itself builds and parses a token on this thread
+        13 => json!(REENTRANT_VALUE),
         // 0.1f32: serialised with the shortest f32 representation, i.e. the JSON number 0.1
         _ => serde_json::from_str("0.1").unwrap(),
+    }
+}
+
+/// Native value #13: while it is being serialised it uses the library itself - it puts a claim into another
+/// builder, builds a token from it and parses that token (a delegation claim that mints an inner token when
+/// rendered) - and then serialises as this constant. A panic in there propagates like any panic of a caller's
+/// Serialize implementation.
+pub const REENTRANT_VALUE: &str = "rendered after building and parsing an inner token";
+pub struct ReentrantValue;
+impl serde::Serialize for ReentrantValue {
+    fn serialize<S: serde::Serializer>(&self, serializer: S) -> Result<S::Ok, S::Error> {
+        let p = Proto::ALL[0];
+        let key = crate::domains::key_pool(p)[0].clone();
+        for layer in [Layer::Generic, Layer::Prelude] {
+            let ev = build_history(p, layer, &key.sk, &[BOp::Claim(ClaimSpec::auto("inner", Value::String("x".into()))), BOp::Build]);
+            match ev.last() {
+                Some(BEvent::Built(Out::Ok(t))) => {
+                    if let (Out::Panic(l), _) = present(p, layer, &key.pk, t, None, None) {
+                        panic!("parsing the inner token panicked at {}", l);
+                    }
+                }
+                Some(BEvent::Built(Out::Panic(l))) => panic!("building the inner token panicked at {}", l),
+                _ => {}
+            }
+        }
+        serializer.serialize_str(REENTRANT_VALUE)
     }
 }
 
@@ -577,6 +605,7 @@ pub fn put_claim<'a, S: ClaimSink<'a>>(sink: &mut S, spec: &'a ClaimSpec) -> Res
                     LIVE.with(|l| l.set(LIVE_AFTER));
                     r?
                 }
+                13 => sink.put(CustomClaim::try_from((key, ReentrantValue)).map_err(ctor_err)?),
                 _ => sink.put(CustomClaim::try_from((key, 0.1f32)).map_err(ctor_err)?),
             }
             Ok(())
